@@ -44,6 +44,9 @@ def main(argv: list[str] | None = None) -> int:
             print(f"self-test: {selftest.get('killed', 0)}/{selftest['mutants']} mutants killed "
                   f"(+{selftest.get('killed_other_rule', 0)} by another rule), missed={selftest.get('missed', [])}, "
                   f"twins silent {selftest.get('twins_silent', 0)}/{selftest.get('twins', 0)}, stale={selftest.get('stale', [])}")
+            c = selftest.get("corpus", {})
+            print(f"corpus replay: refactorings silent {c.get('refactorings_silent')}/{c.get('refactorings')} (alarms: {[r['name'] for r in c.get('refactoring_alarms', [])]}); "
+                  f"seeded changes for {prop}: reported by this check {c.get('seeded_reported_by_this_check')}, not by this check {c.get('seeded_not_reported_by_this_check')}")
         return finish(ctx, t0=t0, explanation=mod.EXPLANATION, trusted=mod.TRUSTED, declined=mod.DECLINED,
                       extra=getattr(mod, "extra_evidence", lambda c: {})(ctx), selftest=selftest, write=not a.no_write)
     except AnalysisError as e:
